@@ -127,7 +127,8 @@ def check_hop_loop(ctx, r, fn, raw):
                  "stops at the request id")
     if raw:
         push = [s for s in fn.calls("nni_msg_header_append_u32")
-                if len(s.node["args"]) > 1 and "nni_pipe_id" in show(fn.expand(s.node["args"][1]))]
+                if len(s.node["args"]) > 1 and ("nni_pipe_id" in show(fn.expand(s.node["args"][1])) or
+                                                G.field_is(fn.expand(s.node["args"][1]), "id"))]
         if not push:
             ctx.fail(r, fn, "pipe id not pushed", fn.line, "raw receive no longer prepends nni_pipe_id(p->pipe) to the header")
         else:
